@@ -291,11 +291,24 @@ pub struct Script {
     /// a query handler written with a per-item helper: `finish()` is called after every datum (result dropped) and
     /// once more at the end, whose result is returned - the outcome must be the same as with a single `finish()`
     pub finish_each: bool,
+    /// query form only: `fail` is not returned by the handler itself but raised by a response datum of a user-defined
+    /// type whose `format_response_data` refuses (the handler propagates `finish()`); the message must fail with
+    /// exactly that error, extended text included
+    pub fail_via_response: bool,
+}
+
+/// user-defined response data that cannot be formatted
+pub struct FailingDatum(pub Error);
+impl scpi::parser::response::ResponseData for FailingDatum {
+    fn format_response_data(&self, _f: &mut dyn scpi::parser::response::Formatter) -> Result<()> {
+        Err(self.0)
+    }
 }
 
 impl Script {
-    fn pulls(&self, dev: &mut Dev, params: &mut Parameters) -> Result<()> {
-        if let (Some(e), true) = (self.fail, self.fail_before_pulls) {
+    fn pulls(&self, dev: &mut Dev, params: &mut Parameters, query: bool) -> Result<()> {
+        let via_response = query && self.fail_via_response;
+        if let (Some(e), true, false) = (self.fail, self.fail_before_pulls, via_response) {
             return Err(e);
         }
         for p in &self.pulls {
@@ -309,7 +322,7 @@ impl Script {
                     Err(e) => {
                         dev.log.push(Ev::PullErr(e.get_code()));
                         if self.tolerant && e.get_code() != -109 {
-                            return self.fail.map_or(Ok(()), Err);
+                            return if via_response { Ok(()) } else { self.fail.map_or(Ok(()), Err) };
                         }
                         return Err(e);
                     }
@@ -320,7 +333,7 @@ impl Script {
                     Err(e) => {
                         dev.log.push(Ev::PullErr(e.get_code()));
                         if self.tolerant && e.get_code() != -109 {
-                            return self.fail.map_or(Ok(()), Err);
+                            return if via_response { Ok(()) } else { self.fail.map_or(Ok(()), Err) };
                         }
                         return Err(e);
                     }
@@ -357,7 +370,7 @@ impl Script {
                 }
             }
         }
-        if let Some(e) = self.fail {
+        if let (Some(e), false) = (self.fail, via_response) {
             return Err(e);
         }
         Ok(())
@@ -384,7 +397,7 @@ impl Command<Dev> for Script {
             return Command::<Dev>::event(&Stub, dev, c, params);
         }
         dev.log.push(Ev::Invoke { h: self.id, query: false });
-        let r = self.pulls(dev, &mut params);
+        let r = self.pulls(dev, &mut params, false);
         dev.log.push(Ev::Return { h: self.id, err: r.err().map(|e| e.get_code()) });
         r
     }
@@ -396,9 +409,18 @@ impl Command<Dev> for Script {
         let r = if false {
             Err(ErrorCode::UndefinedHeader.into())
         } else {
-            self.pulls(dev, &mut params).and_then(|_| {
+            self.pulls(dev, &mut params, true).and_then(|_| {
                 for h in &self.headers {
                     resp.header(h);
+                }
+                if let (Some(e), true) = (self.fail, self.fail_via_response) {
+                    // somewhere among the data: first, or behind the first datum
+                    if let Some(v) = self.emit.first() {
+                        if e.get_code() % 2 == 0 {
+                            put_val(&mut resp, v);
+                        }
+                    }
+                    resp.data(FailingDatum(e));
                 }
                 for v in &self.emit {
                     put_val(&mut resp, v);
